@@ -76,7 +76,7 @@ class Cover:
         mon.free_tool_id(TOOL)
         self.active = False
 
-    def missing(self):
+    def missing(self, entered_only=False):
         """list of (rel file, qualname, line, text) of executable function lines never executed"""
         out = []
         for path, rel in self.files.items():
@@ -86,6 +86,12 @@ class Cover:
                 out.append((rel, "<unparseable>", 0, str(ex)))
                 continue
             for q, lines in fl.items():
+                entered = any((path, ln) in self.hits for ln in lines)
+                if entered_only and not entered:
+                    # a function the run never entered is not part of what this check ties to its model; code that IS reachable
+                    # from an executed path but was not executed always shows up as an unexecuted line of an ENTERED function
+                    # (at the latest the line with the call), so nothing can hide behind this
+                    continue
                 for ln, text in lines.items():
                     if (path, ln) not in self.hits:
                         out.append((rel, q, ln, text))
@@ -103,7 +109,7 @@ def gate(chk, cover, only_functions=None):
     the committed baseline.  `only_functions`: restrict to these qualified names (prefix match)."""
     base = load_baseline().get(chk.pid, [])
     known = {(b["file"], b["function"], b["text"]) for b in base}
-    miss = cover.missing()
+    miss = cover.missing(entered_only=not os.environ.get("VERIF_WRITE_COVERAGE_BASELINE"))
     if only_functions is not None:
         miss = [m for m in miss if any(m[1] == f or m[1].startswith(f + ".") for f in only_functions)]
     new = [m for m in miss if (m[0], m[1], m[3]) not in known]
